@@ -107,7 +107,10 @@ def gen_pair(rng, quick):
         total = min(total, 40_000)
     return dict(kind="pair", window=w, packet=pkt, total=total, err=int(total * frac), read=read,
                 direction=rng.choice(("c2s", "s2c")), latency=rng.choice((0, 0, 0.002)),
-                api=rng.choice(("sendall", "send")), reader_half_closed=rng.random() < 0.35)
+                api=rng.choice(("sendall", "send")), reader_half_closed=rng.random() < 0.35,
+                request=rng.choice((None, ("exit-status", "after_a_little"), ("exit-status", "start"), ("exit-status", "mid"),
+                                    ("exit-signal", "after_a_little"), ("exit-signal", "mid"),
+                                    ("unknown", "after_a_little"), ("unknown", "mid"))))
 
 
 def run_pair(ctx, case, rng):
@@ -151,8 +154,40 @@ def run_pair(ctx, case, rng):
         rd = cm.PollReader(r, rng.getrandbits(32), case["read"])
         got = rd.got
 
-        ths = [threading.Thread(target=writer, args=(out, False, "w_out", rng.getrandbits(32)), daemon=True, name="w_out"),
+        req = case.get("request")
+        wside = "c" if w is c else "s"
+
+        def send_request(kind):
+            """A channel request in the middle of the stream (RFC 4254 only orders exit-status before CLOSE)."""
+            from vf.attacker import build
+            if kind == "exit-status":
+                w.send_exit_status(rng.choice((0, 1, 255)))
+            elif kind == "exit-signal":
+                w.transport._send_user_message(build(cm.REQUEST, w.remote_chanid, "exit-signal", False, "TERM", False, "", ""))
+            else:
+                # want_reply False: a paramiko *sender* closes its channel on any CHANNEL_FAILURE; the want-reply cell is
+                # driven by the scripted peer in run_ext
+                w.transport._send_user_message(build(cm.REQUEST, w.remote_chanid, "vf-unknown@verif", False, 7))
+
+        head = 0
+        if req is not None:
+            if req[1] == "after_a_little":
+                head = min(700, n_out)
+                if head:
+                    w.sendall(out[:head])  # a little output first
+            if req[1] in ("after_a_little", "start"):
+                send_request(req[0])  # ... then the request, *before* the bulk of the data
+        ths = [threading.Thread(target=writer, args=(out[head:], False, "w_out", rng.getrandbits(32)), daemon=True, name="w_out"),
                threading.Thread(target=writer, args=(err, True, "w_err", rng.getrandbits(32)), daemon=True, name="w_err")]
+        if req is not None and req[1] == "mid":
+            def mid():
+                pair.wait_for(lambda: sum(cm.parse(e["payload"])["len"] for e in p.msgs(wside, "out", (cm.DATA, cm.EXT)))
+                              >= case["total"] // 2, 60, 0.002)
+                try:
+                    send_request(req[0])
+                except Exception as e:
+                    errors.append("request: %r" % (e,))
+            ths.append(threading.Thread(target=mid, daemon=True, name="w_req"))
         rd.start()
         for t in ths:
             t.start()
@@ -203,6 +238,20 @@ def run_pair(ctx, case, rng):
             return
         ctx.count("transfers_completed")
         ctx.count("bytes_transferred", case["total"])
+        if req is not None:
+            # from the reader's tap: how much data was still to come when the request was read?
+            seen = after = 0
+            hit = False
+            for e in p.msgs(rside, "in", (cm.DATA, cm.EXT, cm.REQUEST)):
+                if e["type"] == cm.REQUEST:
+                    hit = True
+                elif hit:
+                    after += cm.parse(e["payload"])["len"]
+            if hit:
+                ctx.count("transfers_with_midstream_request")
+                ctx.count("midstream_request_" + req[0].replace("-", "_"))
+                if after > case["window"]:
+                    ctx.count("requests_followed_by_more_than_a_window_of_data")
         judge_receiver(ctx, p.rec, rside, case)
         ctx.count("adjusts_seen", len(p.msgs(rside, "out", (cm.ADJUST,))))
         ctx.count("data_msgs_seen", len(p.msgs(rside, "in", (cm.DATA, cm.EXT))))
@@ -402,6 +451,7 @@ def gen_ext(rng, idx):
     else:
         codes = [0, 1, 2, 3, 4, 5]
     return dict(kind="ext", window=w, codes=codes, mode=mode, total=rng.choice((w // 10 + 1, 20000, w, 3 * w + 11)),
+                request=(None, "exit-status", "exit-signal", "unknown-want-reply")[idx % 4], request_after=rng.choice((0, 1, 3)),
                 maxchunk=rng.choice((100, 4000, 20000)), role=rng.choice(("client", "server")))
 
 
@@ -471,6 +521,16 @@ def run_ext(ctx, case, rng):
                     stalled = True
                     break
                 continue
+            if case.get("request") and k == case["request_after"]:
+                rq = case["request"]
+                if rq == "exit-status":
+                    a.send(cm.REQUEST, vid, "exit-status", False, 3)
+                elif rq == "exit-signal":
+                    a.send(cm.REQUEST, vid, "exit-signal", False, "TERM", False, "", "")
+                else:
+                    a.send(cm.REQUEST, vid, "vf-unknown@verif", True, 7)
+                ctx.count("scripted_peer_midstream_requests")
+                ctx.count("scripted_peer_request_" + rq.replace("-", "_"))
             n = min(room, case["total"] - sent, rng.randint(1, case["maxchunk"]))
             code = case["codes"][k % len(case["codes"])]
             k += 1
@@ -545,3 +605,8 @@ def run(ctx):
     ctx.require("single_large_adjusts", 16)
     ctx.require("parked_writers_all_progressed", 16)
     ctx.require("transfers_with_reader_half_closed", 6)
+    ctx.require("transfers_with_midstream_request", 16)
+    ctx.require("scripted_peer_midstream_requests", 20)
+    ctx.require("scripted_peer_request_unknown_want_reply", 6)
+    ctx.require("midstream_request_exit_status", 6)
+    ctx.require("requests_followed_by_more_than_a_window_of_data", 8)
